@@ -42,6 +42,11 @@ func equalValue(x, y reflect.Value) bool {
 	if ok1 && ok2 {
 		return rx.Cmp(ry) == 0
 	}
+	if ok1 != ok2 {
+		// A number never equals a non-number (json.Number has kind String,
+		// so the kind test below does not tell them apart).
+		return false
+	}
 	if x.Kind() != y.Kind() {
 		return false
 	}
